@@ -103,6 +103,11 @@ for final_nl in (True, False):
         # nested directories: lib/a requires its neighbour lib/vec by a name relative to its own directory
         la = (b'local v = require("vec")\n' + A_[0], b'local v = require("vec")\n' + A_[1])
         scenario('nested directory; ' + tag, {'lib/a.lua': la, 'lib/vec.lua': B_}, b'require("lib/a")\nz = 3\n', [(b'lib/a', 'lib/a.lua'), (b'vec', 'lib/vec.lua')])
+        # the same file under two require strings (from the main directory and from its own directory): each NAME is defined once
+        scenario('one file under two names; ' + tag, {'lib/a.lua': la, 'lib/vec.lua': B_}, b'require("lib/a")\nrequire("lib/vec")\nz = 3\n',
+                 [(b'lib/a', 'lib/a.lua'), (b'vec', 'lib/vec.lua'), (b'lib/vec', 'lib/vec.lua')])
+        scenario('one file under two names through the load path; ' + tag, {'pkg/m.lua': B_}, b'm = require("m")\nn = require("pkg/m")\n',
+                 [(b'm', 'pkg/m.lua'), (b'pkg/m', 'pkg/m.lua')], lua_path='?.lua;pkg/?.lua')
         # custom load path
         scenario('custom load path; ' + tag, {'pkg/m.lua': A_}, b'm = require("m")\n', [(b'm', 'pkg/m.lua')], lua_path='?.lua;pkg/?.lua')
 # no packages: code unchanged
